@@ -322,7 +322,7 @@ func oneMain(args []string) {
 			fmt.Println("ok; triggers", out.Triggers)
 		}
 		for _, f := range out.Findings {
-			fmt.Printf("%s %s %s %s: %s | final: %s\n", f.Config, f.Class, f.Sub, f.Site, f.Detail, f.Extra)
+			fmt.Printf("%s %s %s %s: %s | final: %s | triggers %v\n", f.Config, f.Class, f.Sub, f.Site, f.Detail, f.Extra, f.Trig)
 		}
 	}
 }
